@@ -6,7 +6,7 @@ Path-sensitive must-analysis per function (facts travel only along the edge on w
 established them), with callee preconditions propagated to the callers up to the API boundary."""
 import collections
 
-from ..core import (strip, is_var, callee, const_of, apath, fields_of, show, short_loc, Flow, AnalysisBroken, walk)
+from ..core import (dominators, strip, is_var, callee, const_of, apath, fields_of, show, short_loc, Flow, AnalysisBroken, walk)
 from ..cond import atoms, SWAP
 from ..intstate import Z, NZ, norm_local
 from ..result import RuleResult, Violation
@@ -1055,4 +1055,59 @@ def run_pubstruct(prog, prefix="mpq_", rule="R-PUBSTRUCT", floor=2):
                                                         "nstruct .. ncols-1 pass, and the value is used without the structmap" % (show(nd)[:70], show(b_))))
     res.counts["comparisons_of_external_values_with_a_dimension"] = n
     res.floor("comparisons of caller-supplied values with a problem dimension in public functions", n, floor)
+    # the same for the caller's arrays: an array handed in or out through the interface has one entry per row or per structural column.
+    # A local counter whose every comparison in the function is with a dimension of the internal column space does not subscript a
+    # caller's array (QSexact_verify copied ncols = nstruct + nrows doubles out of the caller's primal vector)
+    m = 0
+    reported = set()
+    funcs = [f for f, _ in api_functions(prog, prefix)] + [f for f in prog.funcs.values() if f.live is not None and f.name.startswith("QSexact") and not f.static]
+    seen = set()
+    for f in funcs:
+        if f.live is None or f.key in seen:
+            continue
+        seen.add(f.key)
+        arrs = {p_[0] for p_ in f.params if p_[1].count("*") == 1 and not any(x in p_[1] for x in ("QSdata", "qsdata", "QSbasis", "qsbasis"))}
+        if not arrs:
+            continue
+        dom, _succ = dominators(prog, f)
+        loops = []          # (true successor, counter, class)
+        for bid in f.live:
+            c = f.blocks[bid].get("c")
+            ss = prog.live_succs(f, f.blocks[bid])
+            if c is None or len(ss) != 2 or ss[0] is None:
+                continue
+            c0 = strip(c)
+            if isinstance(c0, list) and c0 and c0[0] == "b" and c0[1] in ("<", "<="):
+                a0 = strip(c0[2])
+                cls = dim_class(c0[3])
+                if is_var(a0, kind="l") and cls is not None:
+                    loops.append((ss[0], a0[2], cls, show(c0[3])))
+        if not loops:
+            continue
+        for b, i, e in f.elements():
+            trees = [x[1] for x in e[1] if x[1] is not None] if e[0] == "D" else ([e[1]] if len(e) > 1 and isinstance(e[1], list) else [])
+            for t in trees:
+                for nd in walk(t):
+                    if not (isinstance(nd, list) and nd and nd[0] == "i"):
+                        continue
+                    a0, i0 = strip(nd[1]), strip(nd[2])
+                    if not (is_var(a0) and isinstance(a0[1], str) and a0[1].startswith("p") and a0[2] in arrs and is_var(i0, kind="l")):
+                        continue
+                    # the innermost enclosing loop on this counter: the candidate with the most dominators of its own
+                    encl = [(len(dom.get(ts, ())), cls, dtext) for ts, v, cls, dtext in loops
+                            if v == i0[2] and (ts == b["id"] or ts in dom.get(b["id"], ()))]
+                    if not encl:
+                        continue
+                    _d, cls, dtext = max(encl)
+                    m += 1
+                    res.obligations += 1
+                    res.nontrivial += 1
+                    if cls == COL and (f.key, a0[2], e[2] if len(e) > 2 else None) not in reported:
+                        reported.add((f.key, a0[2], e[2] if len(e) > 2 else None))
+                        res.violations.append(Violation(rule, "%s|%s[%s] runs over the internal column count" % (base(f.name), a0[2], i0[2]), f.name,
+                                                        short_loc(e[2] if len(e) > 2 and isinstance(e[2], str) else f.loc),
+                                                        "%s inside a loop %s < %s: a dimension of the internal column space (structural columns plus one logical per "
+                                                        "row); the caller's array %s has one entry per structural column" % (show(nd)[:50], i0[2], dtext, a0[2])))
+    res.counts["subscripts_of_caller_arrays_by_a_dimension_bounded_counter"] = m
+    res.floor("subscripts of caller-supplied arrays by a counter bounded by a problem dimension", m, 6)
     return res
